@@ -3,29 +3,44 @@
 // RtpsMessageWrite::new (Cursor<Vec<u8>>, write_submessage_into_bytes, back-patched length) ->
 // real parser RtpsMessageRead::try_from -> equality of the RTPS header and of every field, and
 // octetsToNextHeader in the bytes == number of element bytes that follow.
+//
+// Tractability notes (measured): the container builds the message in a growing heap Vec whose
+// contents CBMC does not constant-propagate; RtpsMessageRead::try_from then explores all twelve
+// decoders at every position (> 900 s for one HEARTBEAT). The harnesses therefore (1) enumerate the
+// flag values concretely, (2) assert the framing bytes (protocol id, submessage id, flags octet,
+// octetsToNextHeader and - for the variable-length elements - numBits / bitmap words / parameter
+// length / sentinel) against their expected constants and re-write them with those constants in a
+// local copy of the message (`support_msg::image`, `pin_*`): a semantic no-op that makes the
+// parser's control flow concrete. All other bytes stay symbolic.
+use alloc::sync::Arc;
+use alloc::vec::Vec;
+
 use super::support_msg::*;
 
-use crate::rtps_messages::overall_structure::RtpsSubmessageReadKind;
-use crate::rtps_messages::submessages::heartbeat::HeartbeatSubmessage;
-use crate::rtps_messages::types::HEARTBEAT;
+use crate::rtps_messages::overall_structure::{RtpsMessageRead, RtpsSubmessageReadKind};
+use crate::rtps_messages::submessage_elements::{Data, Parameter, ParameterList, SerializedDataFragment};
+use crate::rtps_messages::submessages::{
+    ack_nack::AckNackSubmessage, data::DataSubmessage, data_frag::DataFragSubmessage, gap::GapSubmessage,
+    heartbeat::HeartbeatSubmessage, heartbeat_frag::HeartbeatFragSubmessage,
+    info_destination::InfoDestinationSubmessage, info_source::InfoSourceSubmessage,
+    info_timestamp::InfoTimestampSubmessage, nack_frag::NackFragSubmessage, pad::PadSubmessage,
+};
+use crate::rtps_messages::types::{
+    Time, ACKNACK, DATA, DATA_FRAG, GAP, HEARTBEAT, HEARTBEAT_FRAG, INFO_DST, INFO_SRC, INFO_TS, NACK_FRAG, PAD,
+    TIME_INVALID,
+};
+use crate::transport::types::ProtocolVersion;
 
-// @check props=C08 tier=quick
-// @desc HEARTBEAT: any flags, ids, first/last sequence number over the full i64 range, count over the full i32 range round-trip; octetsToNextHeader = 28
-// @bounds all fields symbolic over their full machine domain; message 52 bytes; unwind 56 (byte-wise Vec::resize in the container)
-// @enc rtps_messages::overall_structure::RtpsMessageWrite::new
-// @enc rtps_messages::overall_structure::RtpsMessageRead::try_from
-// @enc rtps_messages::submessages::heartbeat::HeartbeatSubmessage::try_from_bytes
-#[kani::proof]
-#[kani::unwind(56)]
-fn c08_heartbeat() {
+fn heartbeat_trip(f: bool, l: bool) {
     let header = any_header();
-    let s = HeartbeatSubmessage::new(kani::any(), kani::any(), any_entity_id(), any_entity_id(), kani::any(), kani::any(), kani::any());
+    let s = HeartbeatSubmessage::new(f, l, any_entity_id(), any_entity_id(), kani::any(), kani::any(), kani::any());
     let w = encode(&header, &[&s]);
-    check_framing(w.buffer(), &header, HEARTBEAT, 28);
-    let m = decode_single(w.buffer(), &header);
+    let flags = 1 | ((f as u8) << 1) | ((l as u8) << 2);
+    let img: [u8; 52] = image(w.buffer(), &header, HEARTBEAT, Some(flags));
+    let m = decode_single(&img[..], &header);
     match first(&m) {
         RtpsSubmessageReadKind::Heartbeat(d) => {
-            assert!(d.final_flag() == s.final_flag() && d.liveliness_flag() == s.liveliness_flag(), "C08: HEARTBEAT flags");
+            assert!(d.final_flag() == f && d.liveliness_flag() == l, "C08: HEARTBEAT flags");
             assert!(d._reader_id() == s._reader_id() && d.writer_id() == s.writer_id(), "C08: HEARTBEAT ids");
             assert!(d.first_sn() == s.first_sn() && d.last_sn() == s.last_sn(), "C08: HEARTBEAT sequence numbers");
             assert!(d.count() == s.count(), "C08: HEARTBEAT count");
@@ -35,4 +50,539 @@ fn c08_heartbeat() {
     }
     core::mem::forget(m);
     core::mem::forget(w);
+}
+
+// @check props=C08 tier=quick
+// @desc HEARTBEAT (final set, liveliness clear): any ids, first/last sequence number over the full i64 range, count over the full i32 range round-trip through the real container and the real parser; octetsToNextHeader = 28 = encoded element length
+// @bounds all fields symbolic over their full machine domain; flags concrete; message 52 bytes; unwind 56 (byte-wise Vec::resize in the container, message copy)
+// @enc rtps_messages::overall_structure::RtpsMessageWrite::new
+// @enc rtps_messages::overall_structure::RtpsMessageRead::try_from
+// @enc rtps_messages::submessages::heartbeat::HeartbeatSubmessage::try_from_bytes
+#[kani::proof]
+#[kani::unwind(56)]
+fn c08_heartbeat() {
+    heartbeat_trip(true, false);
+}
+
+// @check props=C08 tier=thorough
+// @desc HEARTBEAT, the other three flag combinations
+// @bounds as c08_heartbeat
+// @enc rtps_messages::overall_structure::RtpsMessageWrite::new
+// @enc rtps_messages::overall_structure::RtpsMessageRead::try_from
+#[kani::proof]
+#[kani::unwind(56)]
+fn c08_heartbeat_other_flags() {
+    heartbeat_trip(false, false);
+    heartbeat_trip(false, true);
+    heartbeat_trip(true, true);
+}
+
+// @check props=C08 tier=quick
+// @desc HEARTBEAT_FRAG, INFO_DST, INFO_SRC, PAD: every field symbolic (sequence number full i64, fragment number full u32, count full i32, guid prefix / version / vendor bytes) round-trips; octetsToNextHeader = 24 / 12 / 20 / 0
+// @bounds fields over their full machine domain; messages 48 / 36 / 44 / 24 bytes; unwind 52
+// @enc rtps_messages::overall_structure::RtpsMessageWrite::new
+// @enc rtps_messages::overall_structure::RtpsMessageRead::try_from
+// @enc rtps_messages::submessages::heartbeat_frag::HeartbeatFragSubmessage::try_from_bytes
+// @enc rtps_messages::submessages::info_destination::InfoDestinationSubmessage::try_from_bytes
+// @enc rtps_messages::submessages::info_source::InfoSourceSubmessage::try_from_bytes
+// @enc rtps_messages::submessages::pad::PadSubmessage::try_from_bytes
+#[kani::proof]
+#[kani::unwind(52)]
+fn c08_fixed_size_kinds() {
+    let header = any_header();
+    {
+        let s = HeartbeatFragSubmessage::_new(any_entity_id(), any_entity_id(), kani::any(), kani::any(), kani::any());
+        let w = encode(&header, &[&s]);
+        let img: [u8; 48] = image(w.buffer(), &header, HEARTBEAT_FRAG, Some(1));
+        let m = decode_single(&img[..], &header);
+        match first(&m) {
+            RtpsSubmessageReadKind::HeartbeatFrag(d) => {
+                assert!(*d == s, "C08: HEARTBEAT_FRAG differs after the round trip");
+                assert!(d._writer_sn() == s._writer_sn() && d._last_fragment_num() == s._last_fragment_num() && d.count() == s.count(), "C08: HEARTBEAT_FRAG fields");
+                kani::cover!(d._last_fragment_num() == u32::MAX && d._writer_sn() == i64::MIN, "extreme HEARTBEAT_FRAG values round-trip");
+            }
+            _ => assert!(false, "C08: HEARTBEAT_FRAG decoded as another kind"),
+        }
+        core::mem::forget(m);
+        core::mem::forget(w);
+    }
+    {
+        let s = InfoDestinationSubmessage::new(kani::any());
+        let w = encode(&header, &[&s]);
+        let img: [u8; 36] = image(w.buffer(), &header, INFO_DST, Some(1));
+        let m = decode_single(&img[..], &header);
+        match first(&m) {
+            RtpsSubmessageReadKind::InfoDestination(d) => assert!(d.guid_prefix() == s.guid_prefix(), "C08: INFO_DST guid prefix"),
+            _ => assert!(false, "C08: INFO_DST decoded as another kind"),
+        }
+        core::mem::forget(m);
+        core::mem::forget(w);
+    }
+    {
+        let s = InfoSourceSubmessage::_new(ProtocolVersion::new(kani::any(), kani::any()), kani::any(), kani::any());
+        let w = encode(&header, &[&s]);
+        let img: [u8; 44] = image(w.buffer(), &header, INFO_SRC, Some(1));
+        let m = decode_single(&img[..], &header);
+        match first(&m) {
+            RtpsSubmessageReadKind::InfoSource(d) => {
+                assert!(d.protocol_version() == s.protocol_version() && d.vendor_id() == s.vendor_id() && d.guid_prefix() == s.guid_prefix(), "C08: INFO_SRC fields");
+            }
+            _ => assert!(false, "C08: INFO_SRC decoded as another kind"),
+        }
+        core::mem::forget(m);
+        core::mem::forget(w);
+    }
+    {
+        let s = PadSubmessage::new();
+        let w = encode(&header, &[&s]);
+        let img: [u8; 24] = image(w.buffer(), &header, PAD, Some(1));
+        let m = decode_single(&img[..], &header);
+        assert!(matches!(first(&m), RtpsSubmessageReadKind::Pad(_)), "C08: PAD decoded as another kind");
+        core::mem::forget(m);
+        core::mem::forget(w);
+    }
+}
+
+// @check props=C08 tier=quick
+// @desc INFO_TS with a timestamp (seconds and fraction over the full u32 range) and with the invalidate flag (no timestamp on the wire, decodes to TIME_INVALID) round-trips; octetsToNextHeader = 8 / 0
+// @bounds timestamp symbolic; both flag values; messages 32 / 24 bytes; unwind 36
+// @enc rtps_messages::overall_structure::RtpsMessageWrite::new
+// @enc rtps_messages::overall_structure::RtpsMessageRead::try_from
+// @enc rtps_messages::submessages::info_timestamp::InfoTimestampSubmessage::try_from_bytes
+#[kani::proof]
+#[kani::unwind(36)]
+fn c08_info_timestamp() {
+    let header = any_header();
+    let t = Time::new(kani::any(), kani::any());
+    {
+        let s = InfoTimestampSubmessage::new(false, t);
+        let w = encode(&header, &[&s]);
+        let img: [u8; 32] = image(w.buffer(), &header, INFO_TS, Some(0b01));
+        let m = decode_single(&img[..], &header);
+        match first(&m) {
+            RtpsSubmessageReadKind::InfoTimestamp(d) => {
+                assert!(!d.invalidate_flag() && d.timestamp() == t, "C08: INFO_TS timestamp");
+                kani::cover!(d.timestamp().seconds() == u32::MAX && d.timestamp().fraction() == 1, "a timestamp with seconds = u32::MAX round-trips");
+            }
+            _ => assert!(false, "C08: INFO_TS decoded as another kind"),
+        }
+        core::mem::forget(m);
+        core::mem::forget(w);
+    }
+    {
+        let s = InfoTimestampSubmessage::new(true, t);
+        let w = encode(&header, &[&s]);
+        let img: [u8; 24] = image(w.buffer(), &header, INFO_TS, Some(0b11));
+        let m = decode_single(&img[..], &header);
+        match first(&m) {
+            RtpsSubmessageReadKind::InfoTimestamp(d) => assert!(d.invalidate_flag() && d.timestamp() == TIME_INVALID, "C08: INFO_TS invalidate"),
+            _ => assert!(false, "C08: INFO_TS decoded as another kind"),
+        }
+        core::mem::forget(m);
+        core::mem::forget(w);
+    }
+}
+
+/// ACKNACK with a SequenceNumberSet of `W` bitmap words (message 48 + 4*W bytes).
+fn acknack_trip<const N: usize>(fin: bool, dmax: Option<u32>) {
+    let header = any_header();
+    let base: i64 = kani::any();
+    kani::assume(base <= i64::MAX - 256);
+    let set = any_sn_set(base, dmax, kani::any());
+    let s = AckNackSubmessage::new(fin, any_entity_id(), any_entity_id(), set.clone(), kani::any());
+    let w = encode(&header, &[&s]);
+    let mut img: [u8; N] = image(w.buffer(), &header, ACKNACK, Some(1 | ((fin as u8) << 1)));
+    let nb = match dmax { None => 0, Some(d) => d + 1 };
+    assert!(N == 48 + 4 * ((nb as usize + 31) / 32), "C08: harness message size");
+    pin_u32(&mut img, 40, nb, "C08: ACKNACK numBits on the wire");
+    let m = decode_single(&img[..], &header);
+    match first(&m) {
+        RtpsSubmessageReadKind::AckNack(d) => {
+            assert!(d._final_flag() == fin && d.reader_id() == s.reader_id() && d.writer_id() == s.writer_id() && d.count() == s.count(), "C08: ACKNACK flags / ids / count");
+            assert!(d.reader_sn_state().base() == base, "C08: ACKNACK set base");
+            assert!(*d.reader_sn_state() == set, "C08: ACKNACK set (base, numBits, bitmap) differs after the round trip");
+            kani::cover!(base < -1_000_000 && d.count() == i32::MAX, "a negative base and count = i32::MAX round-trip");
+            kani::cover!(nb > 32 && wire_u32(&img, 48) != 0, "a set bit in the second bitmap word round-trips");
+        }
+        _ => assert!(false, "C08: ACKNACK decoded as another kind"),
+    }
+    core::mem::forget(m);
+    core::mem::forget(w);
+}
+
+// @check props=C08 tier=quick
+// @desc ACKNACK with a SequenceNumberSet of numBits = 34 (two bitmap words, membership of the 33 lower offsets symbolic), base over the full i64 range (up to i64::MAX - 256), count full i32, final flag clear: header, flags, ids, set (base, numBits, bitmap) and count round-trip; octetsToNextHeader = 24 + 4 * ceil(numBits / 32)
+// @bounds numBits = 34 (highest member offset 33 concrete so that the encoded length is concrete), lower membership bits symbolic; message 56 bytes; unwind 60
+// @assume base <= i64::MAX - 256 (so that base + offset does not overflow when the harness builds the member list for SequenceNumberSet::new)
+// @enc rtps_messages::overall_structure::RtpsMessageWrite::new
+// @enc rtps_messages::overall_structure::RtpsMessageRead::try_from
+// @enc rtps_messages::submessage_elements::SequenceNumberSet::new
+// @enc rtps_messages::submessage_elements::SequenceNumberSet::write_into_bytes
+// @enc rtps_messages::submessages::ack_nack::AckNackSubmessage::try_from_bytes
+#[kani::proof]
+#[kani::unwind(60)]
+fn c08_acknack() {
+    acknack_trip::<56>(false, Some(33));
+}
+
+// @check props=C08 tier=thorough
+// @desc ACKNACK: empty set (numBits 0), numBits 1, 32 and 64, final flag set
+// @bounds numBits in {0, 1, 32, 64}, lower membership bits symbolic; unwind 68
+// @assume base <= i64::MAX - 256
+// @enc rtps_messages::overall_structure::RtpsMessageWrite::new
+// @enc rtps_messages::overall_structure::RtpsMessageRead::try_from
+#[kani::proof]
+#[kani::unwind(68)]
+fn c08_acknack_other_sizes() {
+    acknack_trip::<48>(true, None);
+    acknack_trip::<52>(true, Some(0));
+    acknack_trip::<52>(false, Some(31));
+    acknack_trip::<56>(true, Some(63));
+}
+
+// @check props=C08 tier=thorough timeout=1500
+// @desc ACKNACK with the maximal SequenceNumberSet: numBits = 256 (8 bitmap words), membership of offsets 0..63 symbolic (the mask repeats every 64 offsets)
+// @bounds numBits 256; message 80 bytes; unwind 260
+// @assume base <= i64::MAX - 256
+// @enc rtps_messages::overall_structure::RtpsMessageWrite::new
+// @enc rtps_messages::overall_structure::RtpsMessageRead::try_from
+#[kani::proof]
+#[kani::unwind(260)]
+fn c08_acknack_256() {
+    acknack_trip::<80>(false, Some(255));
+}
+
+fn gap_trip<const N: usize>(dmax: Option<u32>) {
+    let header = any_header();
+    let base: i64 = kani::any();
+    kani::assume(base <= i64::MAX - 256);
+    let set = any_sn_set(base, dmax, kani::any());
+    let s = GapSubmessage::new(any_entity_id(), any_entity_id(), kani::any(), set.clone());
+    let w = encode(&header, &[&s]);
+    let mut img: [u8; N] = image(w.buffer(), &header, GAP, Some(1));
+    let nb = match dmax { None => 0, Some(d) => d + 1 };
+    assert!(N == 52 + 4 * ((nb as usize + 31) / 32), "C08: harness message size");
+    pin_u32(&mut img, 48, nb, "C08: GAP numBits on the wire");
+    let m = decode_single(&img[..], &header);
+    match first(&m) {
+        RtpsSubmessageReadKind::Gap(d) => {
+            assert!(d._reader_id() == s._reader_id() && d.writer_id() == s.writer_id(), "C08: GAP ids");
+            assert!(d.gap_start() == s.gap_start(), "C08: GAP start");
+            assert!(*d.gap_list() == set, "C08: GAP list differs after the round trip");
+            kani::cover!(d.gap_start() == i64::MIN && base > 0x7000_0000_0000_0000, "gap_start = i64::MIN and a base near i64::MAX round-trip");
+        }
+        _ => assert!(false, "C08: GAP decoded as another kind"),
+    }
+    core::mem::forget(m);
+    core::mem::forget(w);
+}
+
+// @check props=C08 tier=quick
+// @desc GAP with gap_start over the full i64 range and a gap list of numBits = 41 (two bitmap words, lower membership symbolic), base up to i64::MAX - 256: ids, start and list round-trip; octetsToNextHeader = 28 + 4 * ceil(numBits / 32)
+// @bounds numBits = 41; message 60 bytes; unwind 64
+// @assume base <= i64::MAX - 256
+// @enc rtps_messages::overall_structure::RtpsMessageWrite::new
+// @enc rtps_messages::overall_structure::RtpsMessageRead::try_from
+// @enc rtps_messages::submessages::gap::GapSubmessage::try_from_bytes
+#[kani::proof]
+#[kani::unwind(64)]
+fn c08_gap() {
+    gap_trip::<60>(Some(40));
+}
+
+// @check props=C08 tier=thorough
+// @desc GAP with an empty list and with numBits = 64
+// @bounds numBits in {0, 64}; unwind 68
+// @assume base <= i64::MAX - 256
+// @enc rtps_messages::overall_structure::RtpsMessageWrite::new
+// @enc rtps_messages::overall_structure::RtpsMessageRead::try_from
+#[kani::proof]
+#[kani::unwind(68)]
+fn c08_gap_other_sizes() {
+    gap_trip::<52>(None);
+    gap_trip::<60>(Some(63));
+}
+
+// @check props=C08 tier=quick
+// @desc NACK_FRAG with writerSN full i64, count full i32, FragmentNumberSet base up to u32::MAX - 256 and members {base, base+2, base+32, base+33} (numBits 34): ids, sequence number, set and count round-trip; the bitmap words on the wire are 0xa0000000, 0xc0000000 (RTPS bit order: offset i <-> bit 31 - i%32 of word i/32); octetsToNextHeader = 36
+// @bounds membership pattern concrete (the real FragmentNumberSet decoder materialises members in a Vec: a symbolic bitmap is not tractable, see C07), base symbolic; message 60 bytes; unwind 64
+// @assume base <= u32::MAX - 256
+// @enc rtps_messages::overall_structure::RtpsMessageWrite::new
+// @enc rtps_messages::overall_structure::RtpsMessageRead::try_from
+// @enc rtps_messages::submessage_elements::FragmentNumberSet::new
+// @enc rtps_messages::submessage_elements::FragmentNumberSet::try_read_from_bytes
+// @enc rtps_messages::submessages::nack_frag::NackFragSubmessage::try_from_bytes
+#[kani::proof]
+#[kani::unwind(64)]
+fn c08_nack_frag() {
+    let header = any_header();
+    let base: u32 = kani::any();
+    kani::assume(base <= u32::MAX - 256);
+    let set = any_fn_set(base, Some(33), 0x1_0000_0005);
+    let s = NackFragSubmessage::new(any_entity_id(), any_entity_id(), kani::any(), set.clone(), kani::any());
+    let w = encode(&header, &[&s]);
+    let mut img: [u8; 60] = image(w.buffer(), &header, NACK_FRAG, Some(1));
+    pin_u32(&mut img, 44, 34, "C08: NACK_FRAG numBits on the wire");
+    pin_u32(&mut img, 48, 0xa000_0000, "C08: NACK_FRAG bitmap word 0 (offsets 0 and 2)");
+    pin_u32(&mut img, 52, 0xc000_0000, "C08: NACK_FRAG bitmap word 1 (offsets 32 and 33)");
+    let m = decode_single(&img[..], &header);
+    match first(&m) {
+        RtpsSubmessageReadKind::NackFrag(d) => {
+            assert!(d.reader_id() == s.reader_id() && d._writer_id() == s._writer_id(), "C08: NACK_FRAG ids");
+            assert!(d.writer_sn() == s.writer_sn() && d.count() == s.count(), "C08: NACK_FRAG sequence number / count");
+            assert!(*d.fragment_number_state() == set, "C08: NACK_FRAG set differs after the round trip");
+            kani::cover!(base > 0xf000_0000 && d.writer_sn() < 0, "a large fragment base and a negative sequence number round-trip");
+        }
+        _ => assert!(false, "C08: NACK_FRAG decoded as another kind"),
+    }
+    core::mem::forget(m);
+    core::mem::forget(w);
+}
+
+/// DATA round trip. `qos`: Some(value length) = inline QoS flag set with one parameter of that
+/// many (multiple of 4) symbolic value bytes; `P` payload bytes (symbolic); N = message size.
+fn data_trip<const N: usize, const P: usize>(qos: bool, d_flag: bool, k_flag: bool, n_flag: bool) {
+    let header = any_header();
+    let pid: i16 = kani::any();
+    kani::assume(pid != 1);
+    let pval: [u8; 4] = kani::any();
+    let params: Vec<Parameter> = if qos { alloc::vec![Parameter::new(pid, Arc::from(&pval[..]))] } else { Vec::new() };
+    let payload: [u8; P] = kani::any();
+    let has_payload = d_flag || k_flag;
+    let data = if has_payload { Data::new(Arc::from(&payload[..])) } else { Data::default() };
+    let s = DataSubmessage::new(qos, d_flag, k_flag, n_flag, any_entity_id(), any_entity_id(), kani::any(), ParameterList::new(params), data);
+    let w = encode(&header, &[&s]);
+    let flags = 1 | ((qos as u8) << 1) | ((d_flag as u8) << 2) | ((k_flag as u8) << 3) | ((n_flag as u8) << 4);
+    let mut img: [u8; N] = image(w.buffer(), &header, DATA, Some(flags));
+    assert!(N == 44 + if qos { 12 } else { 0 } + if has_payload { P } else { 0 }, "C08: harness message size");
+    pin_u16(&mut img, 26, 16, "C08: DATA octetsToInlineQos");
+    if qos {
+        pin_u16(&mut img, 44, pid as u16, "C08: parameter id on the wire");
+        pin_u16(&mut img, 46, 4, "C08: parameter length on the wire");
+        pin_u16(&mut img, 52, 1, "C08: sentinel after the parameter list");
+    }
+    let m = decode_single(&img[..], &header);
+    match first(&m) {
+        RtpsSubmessageReadKind::Data(d) => {
+            assert!(d._inline_qos_flag() == qos && d._data_flag() == d_flag && d._key_flag() == k_flag && d._non_standard_payload_flag() == n_flag, "C08: DATA flags");
+            assert!(d.reader_id() == s.reader_id() && d.writer_id() == s.writer_id() && d.writer_sn() == s.writer_sn(), "C08: DATA ids / sequence number");
+            assert!(d.inline_qos().parameter().len() == qos as usize, "C08: DATA inline QoS parameter count");
+            if qos {
+                let p = &d.inline_qos().parameter()[0];
+                assert!(p.parameter_id() == pid && p.value().len() == 4, "C08: DATA parameter id / length");
+                assert!(p.value()[0] == pval[0] && p.value()[1] == pval[1] && p.value()[2] == pval[2] && p.value()[3] == pval[3], "C08: DATA parameter value");
+            }
+            let dp = d.serialized_payload().as_ref();
+            assert!(dp.len() == if has_payload { P } else { 0 }, "C08: DATA payload length");
+            let mut i = 0;
+            while i < dp.len() {
+                assert!(dp[i] == payload[i], "C08: DATA payload bytes");
+                i += 1;
+            }
+            assert!(*d == s, "C08: DATA differs after the round trip");
+            kani::cover!(d.writer_sn() == i64::MAX, "writer_sn = i64::MAX round-trips");
+        }
+        _ => assert!(false, "C08: DATA decoded as another kind"),
+    }
+    core::mem::forget(m);
+    core::mem::forget(w);
+}
+
+// @check props=C08 tier=quick
+// @desc DATA without inline QoS (flags D) and a 5-byte payload (not a multiple of 4), and DATA with inline QoS (one parameter: symbolic id != sentinel, 4 symbolic value bytes), key flag, non-standard-payload flag and a 4-byte payload: flags, ids, writerSN (full i64), parameter and payload bytes round-trip; octetsToNextHeader = 20 [+ 12] + payload length
+// @bounds payload 5 / 4 symbolic bytes, <= 1 parameter of 4 bytes; messages 49 / 60 bytes; unwind 64
+// @assume parameter id != PID_SENTINEL (1); parameter value length a multiple of 4 (values are padded on the wire otherwise)
+// @enc rtps_messages::overall_structure::RtpsMessageWrite::new
+// @enc rtps_messages::overall_structure::RtpsMessageRead::try_from
+// @enc rtps_messages::submessages::data::DataSubmessage::try_from_bytes
+// @enc rtps_messages::submessage_elements::ParameterList::write_into_bytes
+// @enc rtps_messages::submessage_elements::ParameterList::try_read_from_bytes
+#[kani::proof]
+#[kani::unwind(64)]
+fn c08_data() {
+    data_trip::<49, 5>(false, true, false, false);
+    data_trip::<60, 4>(true, false, true, true);
+}
+
+// @check props=C08 tier=thorough
+// @desc DATA: no payload flags (neither D nor K: no payload on the wire), inline QoS only; D with inline QoS and an 8-byte payload; empty payload with D
+// @bounds payload 0 / 8 bytes, <= 1 parameter of 4 bytes; unwind 68
+// @assume parameter id != PID_SENTINEL (1)
+// @enc rtps_messages::overall_structure::RtpsMessageWrite::new
+// @enc rtps_messages::overall_structure::RtpsMessageRead::try_from
+#[kani::proof]
+#[kani::unwind(68)]
+fn c08_data_other_shapes() {
+    data_trip::<56, 8>(true, false, false, false);
+    data_trip::<64, 8>(true, true, false, false);
+    data_trip::<44, 0>(false, true, false, false);
+}
+
+fn data_frag_trip<const N: usize, const P: usize>(qos: bool, k_flag: bool, n_flag: bool) {
+    let header = any_header();
+    let pid: i16 = kani::any();
+    kani::assume(pid != 1);
+    let pval: [u8; 4] = kani::any();
+    let params: Vec<Parameter> = if qos { alloc::vec![Parameter::new(pid, Arc::from(&pval[..]))] } else { Vec::new() };
+    let payload: [u8; P] = kani::any();
+    let s = DataFragSubmessage::new(
+        qos, n_flag, k_flag, any_entity_id(), any_entity_id(), kani::any(), kani::any(), kani::any(), kani::any(), kani::any(),
+        ParameterList::new(params), SerializedDataFragment::from(&payload[..]),
+    );
+    let w = encode(&header, &[&s]);
+    let flags = 1 | ((qos as u8) << 1) | ((k_flag as u8) << 2) | ((n_flag as u8) << 3);
+    let mut img: [u8; N] = image(w.buffer(), &header, DATA_FRAG, Some(flags));
+    assert!(N == 56 + if qos { 12 } else { 0 } + P, "C08: harness message size");
+    pin_u16(&mut img, 26, 28, "C08: DATA_FRAG octetsToInlineQos");
+    if qos {
+        pin_u16(&mut img, 56, pid as u16, "C08: parameter id on the wire");
+        pin_u16(&mut img, 58, 4, "C08: parameter length on the wire");
+        pin_u16(&mut img, 64, 1, "C08: sentinel after the parameter list");
+    }
+    let m = decode_single(&img[..], &header);
+    match first(&m) {
+        RtpsSubmessageReadKind::DataFrag(d) => {
+            assert!(d.inline_qos_flag() == qos && d.key_flag() == k_flag && d._non_standard_payload_flag() == n_flag, "C08: DATA_FRAG flags");
+            assert!(d.reader_id() == s.reader_id() && d.writer_id() == s.writer_id() && d.writer_sn() == s.writer_sn(), "C08: DATA_FRAG ids / sequence number");
+            assert!(d.fragment_starting_num() == s.fragment_starting_num() && d.fragments_in_submessage() == s.fragments_in_submessage() && d.fragment_size() == s.fragment_size() && d.data_size() == s.data_size(), "C08: DATA_FRAG fragment fields");
+            assert!(d.inline_qos().parameter().len() == qos as usize, "C08: DATA_FRAG inline QoS parameter count");
+            if qos {
+                let p = &d.inline_qos().parameter()[0];
+                assert!(p.parameter_id() == pid && p.value().len() == 4 && p.value()[0] == pval[0] && p.value()[3] == pval[3], "C08: DATA_FRAG parameter");
+            }
+            let dp = d.serialized_payload().as_ref();
+            assert!(dp.len() == P, "C08: DATA_FRAG payload length");
+            let mut i = 0;
+            while i < dp.len() {
+                assert!(dp[i] == payload[i], "C08: DATA_FRAG payload bytes");
+                i += 1;
+            }
+            kani::cover!(d.data_size() == u32::MAX && d.fragment_size() == 0 && d.fragment_starting_num() == 0, "extreme fragment fields round-trip");
+        }
+        _ => assert!(false, "C08: DATA_FRAG decoded as another kind"),
+    }
+    core::mem::forget(m);
+    core::mem::forget(w);
+}
+
+// @check props=C08 tier=quick
+// @desc DATA_FRAG without inline QoS, key flag set, 4-byte payload: flags, ids, writerSN (full i64), fragmentStartingNum / dataSize (full u32), fragmentsInSubmessage / fragmentSize (full u16) and payload bytes round-trip; octetsToNextHeader = 32 + payload length
+// @bounds payload 4 symbolic bytes; message 60 bytes; unwind 64
+// @enc rtps_messages::overall_structure::RtpsMessageWrite::new
+// @enc rtps_messages::overall_structure::RtpsMessageRead::try_from
+// @enc rtps_messages::submessages::data_frag::DataFragSubmessage::try_from_bytes
+#[kani::proof]
+#[kani::unwind(64)]
+fn c08_data_frag() {
+    data_frag_trip::<60, 4>(false, true, false);
+}
+
+// @check props=C08 tier=thorough
+// @desc DATA_FRAG with inline QoS (one 4-byte parameter), non-standard-payload flag, 3-byte payload (not a multiple of 4)
+// @bounds payload 3 bytes, 1 parameter; message 71 bytes; unwind 76
+// @assume parameter id != PID_SENTINEL (1)
+// @enc rtps_messages::overall_structure::RtpsMessageWrite::new
+// @enc rtps_messages::overall_structure::RtpsMessageRead::try_from
+#[kani::proof]
+#[kani::unwind(76)]
+fn c08_data_frag_inline_qos() {
+    data_frag_trip::<71, 3>(true, false, true);
+}
+
+// ------------------------------------------------------------------------------------------
+// big-endian decode: images written by a harness-side big-endian writer (RTPS 9.4: same layout,
+// multi-byte fields most significant byte first, flag E clear) decode to the same values.
+// ------------------------------------------------------------------------------------------
+
+fn be_sn(b: &mut [u8], at: usize, sn: i64) {
+    b[at..at + 4].copy_from_slice(&((sn >> 32) as i32).to_be_bytes());
+    b[at + 4..at + 8].copy_from_slice(&(sn as u32).to_be_bytes());
+}
+
+// @check props=C08 tier=quick
+// @desc big-endian decode: a HEARTBEAT and an ACKNACK (numBits 33, symbolic bitmap words) written big-endian (flag E clear) by a 15-line harness-side writer decode, through the real parser, to the field values they were written from; the same ACKNACK value encoded by dust-dds (little-endian) therefore decodes to the same value from both byte orders
+// @bounds all field values symbolic (sequence numbers full i64, counts full i32, bitmap words full i32); flags octet concrete; messages 52 / 56 bytes; unwind 12
+// @enc rtps_messages::overall_structure::RtpsMessageRead::try_from
+// @enc rtps_messages::submessages::heartbeat::HeartbeatSubmessage::try_from_bytes
+// @enc rtps_messages::submessages::ack_nack::AckNackSubmessage::try_from_bytes
+#[kani::proof]
+#[kani::unwind(12)]
+fn c08_big_endian_decode() {
+    let prefix: [u8; 12] = kani::any();
+    let rid: [u8; 4] = kani::any();
+    let wid: [u8; 4] = kani::any();
+    let (first_sn, last_sn, count): (i64, i64, i32) = (kani::any(), kani::any(), kani::any());
+    {
+        let mut b = [0u8; 52];
+        b[..4].copy_from_slice(b"RTPS");
+        b[4] = 2;
+        b[5] = 4;
+        b[6] = 1;
+        b[7] = 20;
+        b[8..20].copy_from_slice(&prefix);
+        b[20] = HEARTBEAT;
+        b[21] = 0b010; // E clear, final set
+        b[22] = 0;
+        b[23] = 28;
+        b[24..28].copy_from_slice(&rid);
+        b[28..32].copy_from_slice(&wid);
+        be_sn(&mut b, 32, first_sn);
+        be_sn(&mut b, 40, last_sn);
+        b[48..52].copy_from_slice(&count.to_be_bytes());
+        match RtpsMessageRead::try_from(&b[..]) {
+            Ok(m) => {
+                assert!(m.header().guid_prefix() == prefix && m.submessages().len() == 1, "C08: big-endian message header / count");
+                match first(&m) {
+                    RtpsSubmessageReadKind::Heartbeat(d) => {
+                        assert!(d.final_flag() && !d.liveliness_flag(), "C08: big-endian HEARTBEAT flags");
+                        assert!(d.first_sn() == first_sn && d.last_sn() == last_sn && d.count() == count, "C08: big-endian HEARTBEAT values");
+                        assert!(d.writer_id().entity_key() == [wid[0], wid[1], wid[2]] && d.writer_id().entity_kind() == wid[3], "C08: big-endian HEARTBEAT writer id");
+                        kani::cover!(first_sn == -2 && count == 0x0102_0304, "asymmetric values decode from big-endian bytes");
+                    }
+                    _ => assert!(false, "C08: big-endian HEARTBEAT decoded as another kind"),
+                }
+                core::mem::forget(m);
+            }
+            Err(_) => assert!(false, "C08: big-endian HEARTBEAT rejected"),
+        }
+    }
+    {
+        let (w0, w1): (i32, i32) = (kani::any(), kani::any());
+        let mut b = [0u8; 56];
+        b[..4].copy_from_slice(b"RTPS");
+        b[4] = 2;
+        b[5] = 4;
+        b[6] = 1;
+        b[7] = 20;
+        b[8..20].copy_from_slice(&prefix);
+        b[20] = ACKNACK;
+        b[21] = 0b000;
+        b[22] = 0;
+        b[23] = 32;
+        b[24..28].copy_from_slice(&rid);
+        b[28..32].copy_from_slice(&wid);
+        be_sn(&mut b, 32, first_sn);
+        b[40..44].copy_from_slice(&33u32.to_be_bytes());
+        b[44..48].copy_from_slice(&w0.to_be_bytes());
+        b[48..52].copy_from_slice(&w1.to_be_bytes());
+        b[52..56].copy_from_slice(&count.to_be_bytes());
+        match RtpsMessageRead::try_from(&b[..]) {
+            Ok(m) => {
+                assert!(m.submessages().len() == 1, "C08: big-endian message count");
+                match first(&m) {
+                    RtpsSubmessageReadKind::AckNack(d) => {
+                        assert!(!d._final_flag() && d.count() == count && d.reader_sn_state().base() == first_sn, "C08: big-endian ACKNACK values");
+                        // member test through the real accessor: offset 32 is bit 31 of word 1
+                        let has32 = d.reader_sn_state().set().any(|x| x == first_sn.wrapping_add(32));
+                        if first_sn <= i64::MAX - 64 {
+                            assert!(has32 == (w1 < 0), "C08: big-endian ACKNACK bitmap bit order");
+                        }
+                    }
+                    _ => assert!(false, "C08: big-endian ACKNACK decoded as another kind"),
+                }
+                core::mem::forget(m);
+            }
+            Err(_) => assert!(false, "C08: big-endian ACKNACK rejected"),
+        }
+    }
 }
